@@ -158,6 +158,15 @@ func genSize(r *simrt.Rand, big *int) int {
 		return sizeClasses[r.Intn(len(sizeClasses))]
 	case 4, 5:
 		return r.Intn(3000)
+	case 6:
+		// payloads whose *encoded* body (payload + ~10..14 bytes of fields) straddles 127/128
+		return 100 + r.Intn(32)
+	case 7:
+		if *big > 0 {
+			*big--
+			return 16355 + r.Intn(32) // ... and 16383/16384
+		}
+		return 100 + r.Intn(32)
 	}
 	return r.Intn(64)
 }
